@@ -66,7 +66,7 @@ def out_of_range_text(prim, draw):
 def candidates(sch, draw):
     """list of (rule, position kind, mutate(sch_copy)) — positions are addressed by index paths so they survive deepcopy"""
     T = schemagen
-    types_by_name = {t["name"].lower(): t for t in sch["types"]}
+    types_by_name = {t["name"].lower(): t for t in list(sch["types"]) + list((sch.get("_include") or {}).get("types", []))}
     hdrs = header_names(sch)
     cands = []
 
@@ -405,6 +405,28 @@ def candidates(sch, draw):
             def mut(s, lp=lp):
                 at_level(s, lp)["_order"] = "bad"
             cands.append(("member-order", pos, mut))
+    # ---- level header composites of the other kind (a group dimension used as data type and vice versa)
+    dims = sorted({L["dimension_type"] for L, kind, d in walk_levels(sch) if kind == "group"})
+    datas = sorted({x["type"] for L, kind, d in walk_levels(sch) for x in L["data"]})
+    for L, kind, depth in walk_levels(sch):
+        lp = level_path(L)
+        if kind == "group" and datas:
+            def mut(s, lp=lp, cs=datas):
+                at_level(s, lp)["dimension_type"] = draw(st.sampled_from(cs))
+            cands.append(("malformed-level-header", "group-depth%d-dimensionType-is-data-encoding" % depth, mut))
+        for i, x in enumerate(L["data"]):
+            other = [dn for dn in dims if dn.lower() != x["type"].lower()]
+            if other:
+                def mut(s, lp=lp, i=i, cs=other):
+                    at_level(s, lp)["data"][i]["type"] = draw(st.sampled_from(cs))
+                cands.append(("malformed-level-header", "%s-depth%d-data-type-is-group-dimension" % (kind, depth), mut))
+    # ---- duplicate public type defined by an included file (case-insensitive)
+    if sch["types"] and not sch.get("_include"):
+        def mut(s):
+            t = copy.deepcopy(draw(st.sampled_from(s["types"])))
+            t["name"] = t["name"].swapcase() if draw(st.booleans()) else t["name"]
+            s["_include"] = {"file": "inc_dup.xml", "types": [t]}
+        cands.append(("duplicate-type-name", "via-include", mut))
     # ---- messages
     if len(sch["messages"]) >= 2:
         def mut(s):
@@ -428,13 +450,19 @@ def candidates(sch, draw):
 LOC_RE = re.compile(r"^Error: (.+?):(\d+):(\d+): ")
 
 
-def verdict(sbeppc, xml, work, tag):
+def verdict(sbeppc, xml, work, tag, include=None):
     d = os.path.join(work, tag)
     os.makedirs(d, exist_ok=True)
     sp = os.path.join(d, "s.xml")
     with open(sp, "w") as f:
         f.write(xml)
-    rc, out = common.run_sbeppc(sbeppc, sp, os.path.join(d, "out"))
+    for stale in ("inc_dup.xml", "inc_types.xml"):
+        if os.path.exists(os.path.join(d, stale)):
+            os.remove(os.path.join(d, stale))
+    if include:
+        with open(os.path.join(d, include[0]), "w") as f:
+            f.write(include[1])
+    rc, out = common.run_sbeppc(sbeppc, sp, os.path.join(d, "out"), cwd=d)
     shutil.rmtree(os.path.join(d, "out"), ignore_errors=True)
     errs = [l for l in out.splitlines() if l.startswith("Error")]
     return rc, errs, xml.count("\n") + 1
@@ -460,6 +488,14 @@ def _worker(args):
         edited = data.draw(st.integers(0, 5)) != 0
         rule, pos = None, None
         s2 = json.loads(json.dumps(sch))
+        if len(s2["types"]) >= 2 and data.draw(st.integers(0, 4)) == 0:
+            # valid transformation: move the last public type into an included file
+            hdrs_ = header_names(s2)
+            cand_i = [i for i, t in enumerate(s2["types"]) if t["name"].lower() not in hdrs_]
+            if cand_i:
+                t = s2["types"].pop(cand_i[-1])
+                s2["_include"] = {"file": "inc_types.xml", "types": [t]}
+                cls("with_include")
         if edited:
             cands = candidates(s2, draw)
             if not cands:
@@ -480,11 +516,14 @@ def _worker(args):
             cls("checker_rejects_valid:" + ",".join(broken))
             out["catalog_bugs"] += 1
             return
-        rc, errs, nlines = verdict(sbeppc, xml, work, "t%d" % seed_off)
+        incx = schemagen.include_file_xml(s2)
+        rc, errs, nlines = verdict(sbeppc, xml, work, "t%d" % seed_off, (s2["_include"]["file"], incx) if incx else None)
+        if incx:
+            nlines = max(nlines, incx.count("\n") + 1)
         if not edited:
             cls("unedited")
             if rc != 0:
-                local["last"] = ("valid-schema-rejected", {"schema_xml": xml, "model": s2, "rule": None},
+                local["last"] = ("valid-schema-rejected", {"schema_xml": xml, "model": s2, "rule": None, "include": [s2["_include"]["file"], incx] if incx else None},
                                  "valid schema rejected: %s" % (errs[:1] or [rc]))
                 raise AssertionError()
             return
@@ -494,16 +533,16 @@ def _worker(args):
         if len(out["samples"]) < 3 and out["matrix"][key] == 1 and len(out["matrix"]) % 7 == 1:
             out["samples"].append({"rule": rule, "position": pos, "diagnostic": errs[:1], "exit": rc})
         if rc == 0:
-            local["last"] = ("invalid-schema-accepted:%s" % rule, {"schema_xml": xml, "model": s2, "rule": rule, "position": pos},
+            local["last"] = ("invalid-schema-accepted:%s" % rule, {"schema_xml": xml, "model": s2, "rule": rule, "position": pos, "include": [s2["_include"]["file"], incx] if incx else None},
                              "schema breaking rule `%s` at %s accepted with exit 0" % (rule, pos))
             raise AssertionError()
         if rc < 0 or rc > 1:
-            local["last"] = ("abnormal-exit:%s" % rule, {"schema_xml": xml, "model": s2, "rule": rule, "position": pos},
+            local["last"] = ("abnormal-exit:%s" % rule, {"schema_xml": xml, "model": s2, "rule": rule, "position": pos, "include": [s2["_include"]["file"], incx] if incx else None},
                              "sbeppc ended with status %d on a schema breaking `%s`" % (rc, rule))
             raise AssertionError()
         m = LOC_RE.match(errs[0]) if errs else None
         if not m or not (1 <= int(m.group(2)) <= nlines) or int(m.group(3)) < 1:
-            local["last"] = ("diagnostic-not-located:%s" % rule, {"schema_xml": xml, "model": s2, "rule": rule, "position": pos},
+            local["last"] = ("diagnostic-not-located:%s" % rule, {"schema_xml": xml, "model": s2, "rule": rule, "position": pos, "include": [s2["_include"]["file"], incx] if incx else None},
                              "rejected (rule `%s` at %s) but the first diagnostic is not a located Error line: %s" % (rule, pos, errs[:1]))
             raise AssertionError()
 
@@ -558,7 +597,7 @@ def replay(path):
     case = json.load(open(path))["case"]
     work = common.build_dir("c08-replay-%d" % os.getpid())
     try:
-        rc, errs, nlines = verdict(common.build_sbeppc("plain"), case["schema_xml"], work, "r")
+        rc, errs, nlines = verdict(common.build_sbeppc("plain"), case["schema_xml"], work, "r", tuple(case["include"]) if case.get("include") else None)
         print("exit", rc, errs[:2])
         if case.get("rule") is None:
             return 0 if rc == 0 else 1
